@@ -228,7 +228,12 @@ fn judge_video(cfg: &Cfg, st: &State, pts: f64, dts: f64, explicit_dts: bool, da
             j.add_zone("Z2 timestamp at/over 2^53 ticks");
         }
         if let (Some(p), Some(d)) = (tp.lo(), td.lo()) {
-            if (p as i128 - d as i128).abs() >= (1i128 << 31) - 1 {
+            // the composition offset is a signed 32-bit field: -2^31 ..= 2^31 - 1 fit. With exact
+            // tick values the zone starts exactly where the field ends; with a rounding tie on
+            // either side one tick of slack is kept.
+            let o = p as i128 - d as i128;
+            let slack = (tp.is_ambiguous() || td.is_ambiguous()) as i128;
+            if o > i32::MAX as i128 - slack || o < i32::MIN as i128 + slack {
                 j.add_zone("Z12 |pts-dts| at/over 2^31 ticks (C16)");
             }
         }
